@@ -278,7 +278,10 @@ def report(mod, prop, tier, seed, cases, results, problems, wall, write_evidence
             inconclusive.append('case %d: %s' % (cid, str(r['inconclusive'])[:600]))
         for k, v in (r.get('obs') or {}).items():
             if isinstance(v, (int, float)):
-                obs[k] += v
+                if '_max' in k:
+                    obs[k] = max(obs.get(k, 0), v)     # counters named *_max* aggregate by maximum
+                else:
+                    obs[k] += v
         sigs.add(r.get('sig'))
         if r.get('nontrivial'):
             nontrivial_sigs.add(r.get('sig'))
